@@ -15,6 +15,8 @@ Direct ==
     /\ Add(FromInt(A), FromInt(Bb)) = FromInt(A + Bb)
     /\ Mul(FromInt(A), FromInt(Bb)) = FromInt(A * Bb)
     /\ (A >= Bb => Sub(FromInt(A), FromInt(Bb)) = FromInt(A - Bb))
+    /\ Half(FromInt(A)) = FromInt(A \div 2) /\ Half(Mul(FromInt(A), FromInt(46000))) = Mul(FromInt(A), FromInt(23000))
+    /\ DivFloor(FromInt(A * 45000 + Bb), FromInt(Bb + 1)) = FromInt((A * 45000 + Bb) \div (Bb + 1))
     /\ Cmp(FromInt(A), FromInt(Bb)) = (IF A < Bb THEN -1 ELSE IF A > Bb THEN 1 ELSE 0)
     /\ Pow(FromInt(A % 200), 4) = FromInt((A % 200) * (A % 200) * (A % 200) * (A % 200))
     /\ IAdd(IFromInt(A - 23000), IFromInt(Bb - 23000)) = IFromInt(A + Bb - 46000)
